@@ -816,14 +816,38 @@ public:
         O["spec"] = "explicit:" + locStr(S->getLocation());
       else
         O["spec"] = "primary";
-      json::Array A;
+      std::vector<TemplateArgument> Flat;
       for (const TemplateArgument &TA : S->getTemplateArgs().asArray()) {
+        if (TA.getKind() == TemplateArgument::Pack)
+          for (const TemplateArgument &PA : TA.pack_elements()) Flat.push_back(PA);
+        else
+          Flat.push_back(TA);
+      }
+      json::Array A;
+      for (const TemplateArgument &TA : Flat) {
         std::string Str;
         llvm::raw_string_ostream OS(Str);
         TA.print(PP, OS, /*IncludeType=*/false);
         A.push_back(OS.str());
       }
       O["targs"] = std::move(A);
+      json::Array TI;
+      for (const TemplateArgument &TA : Flat) {
+        json::Object T;
+        if (TA.getKind() == TemplateArgument::Type) {
+          QualType QT = TA.getAsType();
+          T["ty"] = typeStr(QT);
+          if (!QT->isDependentType() && !QT->isIncompleteType() && QT->isObjectType() && !QT->isReferenceType()) {
+            T["size"] = (int64_t)Ctx.getTypeSizeInChars(QT).getQuantity();
+            T["align"] = (int64_t)Ctx.getTypeAlignInChars(QT).getQuantity();
+          }
+        } else if (TA.getKind() == TemplateArgument::Integral) {
+          llvm::APSInt I = TA.getAsIntegral();
+          T["int"] = I.isSigned() ? (int64_t)I.getSExtValue() : (int64_t)I.getZExtValue();
+        }
+        TI.push_back(std::move(T));
+      }
+      O["targinfo"] = std::move(TI);
     } else {
       O["tmpl"] = R->getQualifiedNameAsString();
     }
